@@ -66,15 +66,19 @@ Theorem C14_segments_spec : forall pre a b c d e post tS tC tR tX tH tE,
 Proof. exact segments_spec. Qed.
 Print Assumptions C14_segments_spec.
 
-(* without the response marker (void rpcs, DESIGN section 9 no. 20) REQUEST_EXECUTION stays open: start set, end 0,
-   and RESPONSE_HANDLING has no start — the contiguity statement above is refuted there *)
-Theorem C14_segments_without_response_marker_refuted : forall pre a b c d post tS tC tR tX tE,
+(* segments_spec for samples WITHOUT a response marker (void rpcs): REQUEST_EXECUTION ends with the snippet, the three
+   phases are contiguous and ordered, RESPONSE_HANDLING has no range.  (Until /repo 9d7a09d REQUEST_EXECUTION stayed
+   open — DESIGN section 9 no. 20; the witness stays in corpus/C14.) *)
+Theorem C14_segments_spec_without_response_marker : forall pre a b c d post tS tC tR tX tE,
   all_other pre -> all_other a -> all_other b -> all_other c -> all_other d -> all_other post ->
   classify tS = KStart -> classify tC = KClient -> classify tR = KReqInit -> classify tX = KReqExec -> classify tE = KEnd ->
-  let g := parse_segments (pre ++ tS :: a ++ tC :: b ++ tR :: c ++ tX :: d ++ tE :: post) in
-  re_s g = length pre + 4 + length a + length b + length c /\ re_e g = 0 /\ rh_s g = 0.
-Proof. exact segments_without_response_marker. Qed.
-Print Assumptions C14_segments_without_response_marker_refuted.
+  let lines := pre ++ tS :: a ++ tC :: b ++ tR :: c ++ tX :: d ++ tE :: post in
+  let g := parse_segments lines in
+  full_snippet_lines lines = a ++ tC :: b ++ tR :: c ++ tX :: d /\
+  ci_s g = length pre + 2 + length a /\ ci_e g + 1 = ri_s g /\ ri_e g + 1 = re_s g /\ re_e g = full_e g /\
+  full_s g <= ci_s g /\ ci_s g <= ci_e g /\ ri_s g <= ri_e g /\ re_s g <= re_e g /\ rh_s g = 0 /\ rh_e g = 0.
+Proof. exact segments_spec_without_response_marker. Qed.
+Print Assumptions C14_segments_spec_without_response_marker.
 
 Theorem C14_response_marker_iff : forall lro paged cs ss void,
   has_response_marker (method_default lro paged cs ss) void = false <-> lro = false /\ paged = false /\ ss = false /\ void = true.
@@ -88,42 +92,49 @@ Print Assumptions C14_docstring_embeds_full_snippet.
 
 (* generate_request_object: which fields are selected, and that the result covers every selected field *)
 Theorem C14_selected_spec : forall fs,
-  (forall f, In f fs -> f_required f = true -> f_oneof f = None -> In f (selected fs)) /\
+  (forall f, In f fs -> f_required f = true -> f_oneof f = None \/ f_p3opt f = true -> In f (selected fs)) /\
   (forall f o, In f fs -> real_oneof f = Some o -> exists g, In g (selected fs) /\ real_oneof g = Some o).
 Proof. exact selected_spec. Qed.
 Print Assumptions C14_selected_spec.
 
-Theorem C14_request_covers_required_and_oneofs : forall k sc m fs prefix l,
-  assoc m sc = Some fs -> gro (S k) sc m prefix = Some l ->
+Theorem C14_request_covers_required_and_oneofs : forall k sc m fs prefix encl l,
+  assoc m sc = Some fs -> gro (S k) sc m prefix encl = Some l ->
   forall f, In f (selected fs) ->
     match f_type f with
     | TPrim p => In (qual prefix (f_name f), prim_value f p) l
     | TEnum vs => exists v, last_opt vs = Some v /\ In (qual prefix (f_name f), if f_repeated f then VList [VEnum v] else VEnum v) l
-    | TMsg m' => exists l', gro k sc m' (qual prefix (f_name f)) = Some l' /\ incl l' l
+    | TMsg m' => mem_str m' (m :: encl) = true \/
+                 exists l', gro k sc m' (qual prefix (f_name f)) (m :: encl) = Some l' /\ incl l' l
     end.
 Proof. exact request_covers_required_and_oneofs. Qed.
 Print Assumptions C14_request_covers_required_and_oneofs.
 
-(* a required message field whose type has no required fields and no oneofs is mentioned by no entry *)
+(* a required message field whose type has no required fields and no oneofs is mentioned by no entry (known finding) *)
 Theorem C14_required_message_field_populated_refuted :
   exists sc m fs f l, assoc m sc = Some fs /\ In f fs /\ f_required f = true /\ f_oneof f = None /\
-                      gro 5 sc m "" = Some l /\ forall e, In e l -> starts_with (f_name f) (fst e) = false.
+                      gro 5 sc m "" [] = Some l /\ forall e, In e l -> starts_with (f_name f) (fst e) = false.
 Proof. exact required_message_field_populated_refuted. Qed.
 Print Assumptions C14_required_message_field_populated_refuted.
 
-(* the recursion ends when the required / first-oneof-member edges between messages are well founded
-   (no_required_self_cycle, for cycles of any length) ... *)
-Theorem C14_request_object_terminates : forall sc rank,
-  well_ranked sc rank ->
-  forall fuel m fs prefix, assoc m sc = Some fs -> rank m < fuel -> gro fuel sc m prefix <> None.
+(* the recursion ends for EVERY schema whose references resolve and whose enums have a value: as many nested calls as there
+   are messages, plus one, always suffice.  (Until /repo 40893b0 a REQUIRED field of the enclosing message's own type
+   recursed forever — DESIGN section 9 no. 10; the witness stays in corpus/C14.) *)
+Theorem C14_request_object_terminates : forall sc m fs prefix,
+  closed sc -> assoc m sc = Some fs -> gro (S (length sc)) sc m prefix [] <> None.
 Proof. exact request_object_terminates. Qed.
 Print Assumptions C14_request_object_terminates.
 
-(* ... and never ends for a REQUIRED field of the enclosing message's own type (RecursionError on the real code) *)
-Theorem C14_request_object_terminates_refuted :
-  exists sc m fs, assoc m sc = Some fs /\ forall fuel prefix, gro fuel sc m prefix = None.
-Proof. exact request_object_terminates_refuted. Qed.
-Print Assumptions C14_request_object_terminates_refuted.
+Theorem C14_request_object_terminates_general : forall sc,
+  closed sc ->
+  forall fuel m fs prefix encl, assoc m sc = Some fs -> outside (m :: encl) (map fst sc) < fuel ->
+  gro fuel sc m prefix encl <> None.
+Proof. exact request_object_terminates_general. Qed.
+Print Assumptions C14_request_object_terminates_general.
+
+Example C14_example_self_cycle :
+  closed self_schema /\ gro 2 self_schema "Node" "" [] = Some [("name", VStr "name_value")].
+Proof. exact (conj self_schema_closed self_schema_terminates). Qed.
+Print Assumptions C14_example_self_cycle.
 
 (* the metadata entry names the class, method and parameters the client templates define *)
 Theorem C14_metadata_matches_surface : forall svc_name internal transport m,
@@ -133,7 +144,7 @@ Proof. exact metadata_matches_surface. Qed.
 Print Assumptions C14_metadata_matches_surface.
 
 Theorem C14_call_awaited_spec : forall lro paged cs ss,
-  call_awaited true (method_default lro paged cs ss) = negb (lro || paged).
+  call_awaited true (method_default lro paged cs ss) = negb lro.
 Proof. exact call_awaited_spec. Qed.
 Print Assumptions C14_call_awaited_spec.
 
@@ -156,12 +167,12 @@ Proof. exact ex_segments. Qed.
 Print Assumptions C14_example_segments.
 
 Example C14_example_request :
-  gro 3 ex_schema "Req" "" =
-  Some [("by_range.low", VInt 338); ("name", VStr "name_value"); ("mode", VList [VEnum "MODE_FAST"]);
+  gro 3 ex_schema "Req" "" [] =
+  Some [("by_range.low", VInt 338); ("name", VStr "name_value"); ("mode", VList [VEnum "MODE_FAST"]); ("nick", VStr "nick_value");
         ("spec.label", VStr "label_value"); ("spec.weights", VList [VInt 764; VInt 765])].
 Proof. exact ex_request. Qed.
 Print Assumptions C14_example_request.
 
-Example C14_example_well_ranked : well_ranked ex_schema ex_rank.
-Proof. exact ex_well_ranked. Qed.
-Print Assumptions C14_example_well_ranked.
+Example C14_example_closed : closed ex_schema.
+Proof. exact ex_closed. Qed.
+Print Assumptions C14_example_closed.
